@@ -40,8 +40,17 @@ fn fresh_root() -> RootHandle {
     })
 }
 
+/// a key whose `Hash` is coarser than its `Eq` (the `Hash` contract allows that): only the parity is hashed, so different
+/// keys collide all the time and it is `Eq` that tells them apart
+#[derive(Clone, Copy, PartialEq, Eq, Debug)]
+pub struct CoarseKey(pub u32);
+impl std::hash::Hash for CoarseKey {
+    fn hash<H: std::hash::Hasher>(&self, state: &mut H) { state.write_u32(self.0 % 2) }
+}
+
 /// run one chain of updates; returns (observation, verdict)
-pub fn run_case(keyed: bool, lists: &[Vec<Item>]) -> (String, Option<String>) {
+pub fn run_case(keyed: bool, lists: &[Vec<Item>]) -> (String, Option<String>) { run_case_k(keyed, false, lists) }
+pub fn run_case_k(keyed: bool, coarse: bool, lists: &[Vec<Item>]) -> (String, Option<String>) {
     let root = fresh_root();
     let mut out = vec![];
     let mut verdict: Option<String> = None;
@@ -63,7 +72,7 @@ pub fn run_case(keyed: bool, lists: &[Vec<Item>]) -> (String, Option<String>) {
             });
             id
         };
-        let r = catch(|| if keyed { map_keyed(sig, map_fn, |it: &Item| it.0) } else { map_indexed(sig, map_fn) });
+        let r = catch(|| if keyed && coarse { map_keyed(sig, map_fn, |it: &Item| CoarseKey(it.0)) } else if keyed { map_keyed(sig, map_fn, |it: &Item| it.0) } else { map_indexed(sig, map_fn) });
         let mapped = match r {
             Ok(m) => m,
             Err(m) => {
@@ -176,7 +185,8 @@ pub fn run_case(keyed: bool, lists: &[Vec<Item>]) -> (String, Option<String>) {
 pub fn exec(line: &str) -> (String, Option<String>, bool) {
     let t: Vec<&str> = line.split(' ').collect();
     let lists = parse_lists(t[2]);
-    let (o, v) = run_case(t[1] == "keyed", &lists);
+    // `keyedc`: the same with keys whose hashes collide (see `CoarseKey`)
+    let (o, v) = run_case_k(t[1] == "keyed" || t[1] == "keyedc", t[1] == "keyedc", &lists);
     let nt = lists.len() > 1 && lists.windows(2).any(|w| !w[0].is_empty() && !w[1].is_empty() && w[0] != w[1]);
     (o, v, nt)
 }
@@ -215,6 +225,7 @@ pub fn generate(args: &Args) -> Vec<String> {
             let la: Vec<Item> = a.iter().map(|k| (*k, 0)).collect();
             let lb: Vec<Item> = b.iter().map(|k| (*k, 0)).collect();
             l.push(format!("listmap keyed {}", show_lists(&[la.clone(), lb.clone()])));
+            l.push(format!("listmap keyedc {}", show_lists(&[la.clone(), lb.clone()])));
             l.push(format!("listmap indexed {}", show_lists(&[la.clone(), lb.clone()])));
             if !b.is_empty() {
                 // value change under a retained key: payload = position parity
@@ -252,7 +263,7 @@ pub fn generate(args: &Args) -> Vec<String> {
                 v
             })
             .collect();
-        l.push(format!("listmap {} {}", if i % 3 == 2 { "indexed" } else { "keyed" }, show_lists(&chain)));
+        l.push(format!("listmap {} {}", if i % 3 == 2 { "indexed" } else if i % 6 == 1 && !dup { "keyedc" } else { "keyed" }, show_lists(&chain)));
     }
     // (4) LONG lists: an update whose changed window (what is left after the common prefix and suffix) has every length
     //     2..=16 (thorough: ..=24), with 0-3 unchanged items before and after; inside the window: reversed, rotated by one
@@ -286,6 +297,7 @@ pub fn generate(args: &Args) -> Vec<String> {
             let f = |x: &Vec<u32>, pay: u32| x.iter().map(|k| (*k, pay)).collect::<Vec<Item>>();
             for v in &variants {
                 l.push(format!("listmap keyed {}", show_lists(&[f(&base, 0), f(v, 0), f(&base, 0)])));
+                l.push(format!("listmap keyedc {}", show_lists(&[f(&base, 0), f(v, 1), f(&base, 0)])));
                 if pre == 0 && suf == 0 { l.push(format!("listmap indexed {}", show_lists(&[f(&base, 0), f(v, 0), f(&base, 1)]))); }
             }
         }
